@@ -79,51 +79,45 @@ def clear (a : Arena) : Arena := { a with cur := a.cur.clear, full := a.full.map
 def allocate (a : Arena) (n : Nat) : Option Arena :=
   if a.usage + n > a.max then none else some { a with usage := a.usage + n }
 
+/-- A fresh block of capacity `cap` holding `s` (the unchecked `push_slice` into a new bucket). -/
+def freshBlock (id cap : Nat) (s : Bytes) : Bucket := { id := id, cap := cap, data := s }
+
 def storeFit (a : Arena) (s : Bytes) : Out (Arena × StrRef) :=
-  match a.cur.push s with
-  | .ok (b, loc) => .ok ({ a with cur := b }, .arena loc)
-  | .err e => .err e
-  | .panic => .panic
-  | .fault f => .fault f
+  if a.cur.data.length + s.length ≤ a.cur.cap then
+    .ok ({ a with cur := { a.cur with data := a.cur.data ++ s } },
+         .arena { bid := a.cur.id, off := a.cur.data.length, len := s.length })
+  else .fault .oobWrite
 
 /-- `len > 2 * bucket_capacity`: an exactly-sized block, inserted so that the last block stays last. -/
 def storeOversize (a : Arena) (s : Bytes) : Out (Arena × StrRef) :=
-  match a.allocate s.length with
-  | none => .err .memoryLimit
-  | some a' =>
-    match ({ id := a.nextId, cap := s.length, data := [] } : Bucket).push s with
-    | .ok (b, loc) => .ok ({ a' with full := insertBeforeLast b a.full, nextId := a.nextId + 1 }, .arena loc)
-    | .err e => .err e
-    | .panic => .panic
-    | .fault f => .fault f
+  if a.usage + s.length > a.max then .err .memoryLimit
+  else
+    .ok ({ a with usage := a.usage + s.length, full := insertBeforeLast (freshBlock a.nextId s.length s) a.full,
+                  nextId := a.nextId + 1 },
+         .arena { bid := a.nextId, off := 0, len := s.length })
 
 /-- `usage + 2*cap > max`: "allocate as much as we can" — with the repair for D1 (a string longer
-than what is left is refused). -/
+than what is left is refused). `allocate_memory(rem)` then cannot fail, and `rem ≠ 0`. -/
 def storeRemaining (a : Arena) (s : Bytes) : Out (Arena × StrRef) :=
   let rem := a.max - a.usage
-  if rem < s.length then .err .memoryLimit else
-  match a.allocate rem with
-  | none => .err .memoryLimit
-  | some a' =>
-    if rem = 0 then .err .memoryLimit else
-    match ({ id := a.nextId, cap := rem, data := [] } : Bucket).push s with
-    | .ok (b, loc) => .ok ({ a' with full := a.full ++ [a.cur], cur := b, nextId := a.nextId + 1 }, .arena loc)
-    | .err e => .err e
-    | .panic => .panic
-    | .fault f => .fault f
+  if rem < s.length then .err .memoryLimit
+  else if a.usage + rem > a.max then .err .memoryLimit
+  else if rem = 0 then .err .memoryLimit
+  else if s.length ≤ rem then
+    .ok ({ a with usage := a.usage + rem, full := a.full ++ [a.cur], cur := freshBlock a.nextId rem s,
+                  nextId := a.nextId + 1 },
+         .arena { bid := a.nextId, off := 0, len := s.length })
+  else .fault .oobWrite
 
 /-- The ordinary case: a block of twice the current capacity, which becomes the new capacity. -/
 def storeDouble (a : Arena) (s : Bytes) : Out (Arena × StrRef) :=
   let next := a.bucketCap * 2
-  match a.allocate next with
-  | none => .err .memoryLimit
-  | some a' =>
-    match ({ id := a.nextId, cap := next, data := [] } : Bucket).push s with
-    | .ok (b, loc) =>
-      .ok ({ a' with full := a.full ++ [a.cur], cur := b, bucketCap := next, nextId := a.nextId + 1 }, .arena loc)
-    | .err e => .err e
-    | .panic => .panic
-    | .fault f => .fault f
+  if a.usage + next > a.max then .err .memoryLimit
+  else if s.length ≤ next then
+    .ok ({ a with usage := a.usage + next, full := a.full ++ [a.cur], cur := freshBlock a.nextId next s,
+                  bucketCap := next, nextId := a.nextId + 1 },
+         .arena { bid := a.nextId, off := 0, len := s.length })
+  else .fault .oobWrite
 
 /-- `Arena::store_str`, branches in source order. -/
 def store (a : Arena) (s : Bytes) : Out (Arena × StrRef) :=
@@ -171,37 +165,37 @@ def fitIn (s : Bytes) : List Bucket → Option (List Bucket × Loc)
       | some (r, l) => some (b :: r, l)
       | none => none
 
-/-- `allocate_memory` (after the repair for D6: one atomic check-and-add; sequentially the same). -/
-def allocate (a : LArena) (n : Nat) : Option LArena :=
-  if a.usage + n > a.max then none else some { a with usage := a.usage + n }
-
-def pushNew (a a' : LArena) (cap : Nat) (s : Bytes) (newCap : Nat) : Out (LArena × StrRef) :=
-  match ({ id := a.nextId, cap := cap, data := [] } : Bucket).push s with
-  | .ok (b, loc) => .ok ({ a' with buckets := b :: a.buckets, bucketCap := newCap, nextId := a.nextId + 1 }, .arena loc)
-  | .err e => .err e
-  | .panic => .panic
-  | .fault f => .fault f
+/-- No existing block has room: the three growth branches, new blocks pushed at the head.
+`allocate_memory` (after the repair for D6) is one atomic check-and-add; sequentially the same. -/
+def grow (a : LArena) (s : Bytes) : Out (LArena × StrRef) :=
+  let next := a.bucketCap * 2
+  if s.length > next then
+    if a.usage + s.length > a.max then .err .memoryLimit
+    else
+      .ok ({ a with usage := a.usage + s.length,
+                    buckets := { id := a.nextId, cap := s.length, data := s } :: a.buckets, nextId := a.nextId + 1 },
+           .arena { bid := a.nextId, off := 0, len := s.length })
+  else if a.usage + next > a.max then
+    let rem := a.max - a.usage
+    if rem < s.length then .err .memoryLimit
+    else if a.usage + rem > a.max then .err .memoryLimit
+    else if rem = 0 then .err .memoryLimit
+    else if s.length ≤ rem then
+      .ok ({ a with usage := a.usage + rem,
+                    buckets := { id := a.nextId, cap := rem, data := s } :: a.buckets, nextId := a.nextId + 1 },
+           .arena { bid := a.nextId, off := 0, len := s.length })
+    else .fault .oobWrite
+  else if s.length ≤ next then
+    .ok ({ a with usage := a.usage + next, bucketCap := next,
+                  buckets := { id := a.nextId, cap := next, data := s } :: a.buckets, nextId := a.nextId + 1 },
+         .arena { bid := a.nextId, off := 0, len := s.length })
+  else .fault .oobWrite
 
 def store (a : LArena) (s : Bytes) : Out (LArena × StrRef) :=
   if s.length = 0 then .ok (a, .empty) else
   match fitIn s a.buckets with
   | some (bs, loc) => .ok ({ a with buckets := bs }, .arena loc)
-  | none =>
-    let next := a.bucketCap * 2
-    if s.length > next then
-      match a.allocate s.length with
-      | none => .err .memoryLimit
-      | some a' => pushNew a a' s.length s a.bucketCap
-    else if a.usage + next > a.max then
-      let rem := a.max - a.usage
-      if rem < s.length then .err .memoryLimit else
-      match a.allocate rem with
-      | none => .err .memoryLimit
-      | some a' => if rem = 0 then .err .memoryLimit else pushNew a a' rem s a.bucketCap
-    else
-      match a.allocate next with
-      | none => .err .memoryLimit
-      | some a' => pushNew a a' next s next
+  | none => a.grow s
 
 def branchOf (a : LArena) (s : Bytes) : String :=
   if s.length = 0 then "empty" else
